@@ -230,3 +230,40 @@ func VerifC18NoSharedWrites() {
 	})
 	verifCover("C18/shared/end")
 }
+
+// VerifC18NoSharedWritesCodecs: the same sufficient condition for the codecs: creating a decoder or encoder through
+// the format table, decoding a text and encoding a value with it stores nothing into state shared with other
+// evaluations (configured preferences, format descriptors, tables).
+func VerifC18NoSharedWritesCodecs() {
+	type cs struct{ format, text string }
+	cases := []cs{{"csv", "a,b\n1,2\n"}, {"tsv", "a\tb\n1\t2\n"}, {"uri", "x%20y"}, {"yaml", "a: [1, 2]\n"}, {"xml", ""}, {"props", ""}, {"shell", ""}, {"lua", ""}, {"toml", ""}, {"base64", ""}}
+	c := cases[verifChoice("format", len(cases))]
+	doc := vDoc(vMap(vStr("k"), vSeq(vInt("1"), vStr("v"))))
+	flat := vDoc(vSeq(vSeq(vStr("a"), vInt("1"))))
+	verifShared(func() {
+		f, err := FormatFromString(c.format)
+		if err != nil {
+			return
+		}
+		if c.text != "" && f.DecoderFactory != nil {
+			dec := f.DecoderFactory()
+			if dec.Init(strings.NewReader(c.text)) == nil {
+				_, _ = dec.Decode()
+			}
+		}
+		if f.EncoderFactory != nil {
+			var sb strings.Builder
+			w := bufio.NewWriter(vSBWriter{&sb})
+			n := doc
+			if c.format == "csv" || c.format == "tsv" {
+				n = flat
+			}
+			if c.format == "uri" || c.format == "base64" {
+				n = vDoc(vStr("x y"))
+			}
+			printer := NewPrinter(f.EncoderFactory(), NewSinglePrinterWriter(w))
+			_ = printer.PrintResults(n.AsList())
+		}
+	})
+	verifCover("C18/shared-codecs/end")
+}
